@@ -468,12 +468,41 @@ func c09Protocol(c *Ctx, fn *ssa.Function, ren *ssa.Call) {
 			cl = x
 		}
 	}
+	// or the writing (and closing) is a step handed the temporary and the data
+	stepData := -1
+	if w == nil {
+		ssau.ForEachInstr(fn, false, func(in ssa.Instruction) {
+			call, ok := in.(*ssa.Call)
+			if !ok || w != nil || !onTemp(call) || !ssau.Dominates(call, ren) {
+				return
+			}
+			g := call.Common().StaticCallee()
+			if g == nil || g.Blocks == nil || !c.P.IsRepoFunc(g) {
+				return
+			}
+			for di := 1; di < len(g.Params) && di < len(call.Common().Args); di++ {
+				if _, isBytes := g.Params[di].Type().Underlying().(*types.Slice); !isBytes {
+					continue
+				}
+				wr, cls := c09FileStep(c, g, 0, di, 0)
+				if wr {
+					w, stepData = call, di
+					if cls && cl == nil {
+						cl = call
+					}
+				}
+			}
+		})
+	}
 	if !r.Check(w != nil, "O-2", fk+"#write-before-rename", pos, "a Write on the temporary dominates the Rename", "no Write on the temporary file dominates the Rename: the destination can be replaced by an empty or partial file") {
 		return
 	}
 	// the data written is the data parameter
 	dataOK := false
-	if len(w.Common().Args) > 1 {
+	if stepData >= 0 {
+		rs := local.Roots(w.Common().Args[stepData])
+		dataOK = len(rs) == 1 && rs[0].Kind == "param"
+	} else if len(w.Common().Args) > 1 {
 		rs := local.Roots(w.Common().Args[1])
 		dataOK = len(rs) == 1 && rs[0].Kind == "param"
 	}
@@ -572,4 +601,87 @@ func c09DelegatesError(c *Ctx, g, target *ssa.Function, d int) bool {
 		}
 	}
 	return true
+}
+
+// c09FileStep summarises a repository function handed an open file
+// (parameter #fi) and the bytes to store (parameter #di):
+// writes — on every path to a return the whole of the bytes was written to the
+// file (directly or by a step of the same kind) and a failed write makes the
+// function fail; closes — every return is preceded by a Close of the file
+// (directly or by such a step) and a Close whose error is looked at makes the
+// function fail when it fails.
+func c09FileStep(c *Ctx, g *ssa.Function, fi, di, depth int) (writes, closes bool) {
+	if g == nil || g.Blocks == nil || depth > 3 || fi >= len(g.Params) || di >= len(g.Params) || errorIndex(g) < 0 {
+		return false, false
+	}
+	isP := func(v ssa.Value, i int) bool {
+		return v == ssa.Value(g.Params[i]) || ssau.ParamOf(v) == g.Params[i]
+	}
+	var ws, cs []*ssa.Call
+	ssau.ForEachInstr(g, false, func(in ssa.Instruction) {
+		call, ok := in.(*ssa.Call)
+		if !ok || len(call.Common().Args) == 0 || !isP(call.Common().Args[0], fi) {
+			return
+		}
+		a := call.Common().Args
+		switch ssau.CallName(call) {
+		case fileMeth + "Write":
+			if len(a) > 1 && isP(a[1], di) {
+				ws = append(ws, call)
+			}
+			return
+		case fileMeth + "Close":
+			cs = append(cs, call)
+			return
+		}
+		h := call.Common().StaticCallee()
+		if h == nil || !c.P.IsRepoFunc(h) {
+			return
+		}
+		for k := 1; k < len(a) && k < len(h.Params); k++ {
+			if isP(a[k], di) {
+				wr, cl := c09FileStep(c, h, 0, k, depth+1)
+				if wr {
+					ws = append(ws, call)
+				}
+				if cl {
+					cs = append(cs, call)
+				}
+			}
+		}
+	})
+	rets := ssau.ReturnsOf(g)
+	domAll := func(call *ssa.Call) bool {
+		for _, ret := range rets {
+			if !(call.Block() == ret.Block() || call.Block().Dominates(ret.Block())) {
+				return false
+			}
+		}
+		return len(rets) > 0
+	}
+	for _, w := range ws {
+		if ok, _ := failurePropagates(w); ok && domAll(w) {
+			writes = true
+		}
+	}
+	closes = len(cs) > 0
+	for _, ret := range rets {
+		pre := false
+		for _, cl := range cs {
+			if cl.Block() == ret.Block() || cl.Block().Dominates(ret.Block()) {
+				pre = true
+			}
+		}
+		if !pre {
+			closes = false
+		}
+	}
+	for _, cl := range cs {
+		if ev := errValue(cl); ev != nil && ev.Referrers() != nil && len(*ev.Referrers()) > 0 {
+			if ok, _ := failurePropagates(cl); !ok {
+				closes = false
+			}
+		}
+	}
+	return
 }
